@@ -6,7 +6,7 @@ par="${1:-3}"
 one() {
   d="$1"; id=$(basename "$d"); p=${id%-*}
   extra=""
-  case "$id" in C08-2|C03-2) extra="C01";; C13-1) extra="C05";; C10-2) extra="C09";; C04-8) extra="C17";; esac
+  case "$id" in C08-2|C03-2) extra="C01";; C13-1) extra="C05";; C10-2) extra="C09";; C04-8) extra="C17";; C02-9) extra="C01";; esac
   res=""
   for q in $p $extra; do
     out=$(tools/mutcheck.sh "/verif/seeded/$id/patch.diff" "$q" 2>&1 | grep -E "^(== |VIOLATION|PATCH)" | head -4 | sed 's#/verif/build/replays/##' | tr '\n' ' ')
